@@ -217,4 +217,212 @@ example : (match estimate [some { rel := some 90 }, some { abs := some 50000 }] 
     | .ok (true, [some a, some b]) => a.abs == some 450000 && b.rel == some 10 && a.sys == some 500000
     | _ => false) = true := by decide +kernel
 
+/-! ## what the user wrote is preserved -/
+
+/-- the percentage a user wrote on a component is still there -/
+def KeepRel (x y : Option Mix) : Prop := ∀ m, x = some m → ∃ m', y = some m' ∧ ∀ p, m.rel = some p → m'.rel = some p
+
+theorem KeepRel.refl (x : Option Mix) : KeepRel x x := fun m h => ⟨m, h, fun _ hp => hp⟩
+
+theorem KeepRel.trans {x y z : Option Mix} (h1 : KeepRel x y) (h2 : KeepRel y z) : KeepRel x z := by
+  intro m hm
+  obtain ⟨m', hy, k1⟩ := h1 m hm
+  obtain ⟨m'', hz, k2⟩ := h2 m' hy
+  exact ⟨m'', hz, fun p hp => k2 p (k1 p hp)⟩
+
+theorem forall₂_refl (l : List (Option Mix)) : List.Forall₂ KeepRel l l := by
+  induction l with
+  | nil => exact .nil
+  | cons x xs ih => exact .cons (KeepRel.refl x) ih
+
+theorem forall₂_trans {a b c : List (Option Mix)} (h1 : List.Forall₂ KeepRel a b) (h2 : List.Forall₂ KeepRel b c) :
+    List.Forall₂ KeepRel a c := by
+  induction h1 generalizing c with
+  | nil => cases h2; exact .nil
+  | cons hxy _ ih =>
+    cases h2 with
+    | cons hyz htl => exact .cons (hxy.trans hyz) (ih htl)
+
+theorem setSys_keepRel {m m' : Mix} {w : Rat} (h : setSys m w = .ok m') : ∀ p, m.rel = some p → m'.rel = some p := by
+  intro p hp
+  exact ((setSys_spec h).2.2.1 p hp).1
+
+theorem inferRel_keepRel (weight : Rat) : ∀ (ms r : List (Option Mix)), inferRel weight ms = .ok r → List.Forall₂ KeepRel ms r := by
+  intro ms
+  induction ms with
+  | nil => intro r h; simp [inferRel] at h; subst h; exact .nil
+  | cons x xs ih =>
+    intro r h
+    cases x with
+    | none =>
+      simp only [inferRel] at h
+      split at h
+      · cases h
+      · rename_i r' hr'
+        cases h
+        exact .cons (fun m hm => by cases hm) (ih _ hr')
+    | some m =>
+      simp only [inferRel] at h
+      split at h
+      · cases h
+      · rename_i m' hm'
+        split at h
+        · cases h
+        · rename_i r' hr'
+          cases h
+          refine .cons ?_ (ih _ hr')
+          intro m0 hm0
+          cases hm0
+          refine ⟨m', rfl, ?_⟩
+          intro p hp
+          rw [hp] at hm'
+          simp at hm'
+          cases hm'
+          exact hp
+
+theorem setAll_keepRel (w : Rat) : ∀ (ms r : List (Option Mix)) (b : Bool), setAll w ms = .ok (b, r) → List.Forall₂ KeepRel ms r := by
+  intro ms
+  induction ms with
+  | nil => intro r b h; simp [setAll] at h; obtain ⟨-, rfl⟩ := h; exact .nil
+  | cons x xs ih =>
+    intro r b h
+    cases x with
+    | none =>
+      simp only [setAll] at h
+      cases h
+      exact forall₂_refl _
+    | some m =>
+      simp only [setAll] at h
+      split at h
+      · cases h
+      · rename_i m' hm'
+        split at h
+        · cases h
+        · rename_i b' r' hr'
+          cases h
+          refine .cons ?_ (ih _ _ hr')
+          intro m0 hm0
+          cases hm0
+          exact ⟨m', rfl, setSys_keepRel hm'⟩
+
+/-- **C12 (every percentage the user wrote is preserved)**, whatever the answer (generable or not): position by position,
+a component that carried a percentage carries the same percentage after the bookkeeping. -/
+theorem C12_percentages_preserved (ms : List (Option Mix)) (M : Option Rat) (b : Bool) (r : List (Option Mix))
+    (h : estimate ms M = .ok (b, r)) : List.Forall₂ KeepRel ms r := by
+  unfold estimate at h
+  split at h
+  · cases h
+  · rename_i nf tf ms1 hstep
+    have h1 : List.Forall₂ KeepRel ms ms1 := by
+      unfold step1 at hstep
+      split at hstep
+      · split at hstep
+        · cases hstep
+        · split at hstep
+          · cases hstep
+          · rename_i ms' hinf
+            cases hstep
+            exact inferRel_keepRel _ _ _ hinf
+      · cases hstep; exact forall₂_refl _
+    refine forall₂_trans h1 ?_
+    unfold finish at h
+    split at h
+    · cases h
+    · split at h
+      · cases h
+      · split at h
+        · cases h; exact forall₂_refl _
+        · unfold finishAll at h
+          split at h
+          · cases h
+          · rename_i r' hset
+            cases h
+            exact setAll_keepRel _ _ _ _ hset
+          · rename_i r' hset
+            split at h
+            · split at h
+              · cases h
+              · cases h; exact setAll_keepRel _ _ _ _ hset
+            · cases h; exact setAll_keepRel _ _ _ _ hset
+
+
+/-- the absolute mass a user wrote on a component without percentage is still there -/
+def KeepAbs (x y : Option Mix) : Prop := ∀ m, x = some m → m.rel = none → ∃ m', y = some m' ∧ m'.abs = m.abs
+
+theorem setAll_keepAbs (w : Rat) : ∀ (ms r : List (Option Mix)) (b : Bool), setAll w ms = .ok (b, r) → List.Forall₂ KeepAbs ms r := by
+  intro ms
+  induction ms with
+  | nil => intro r b h; simp [setAll] at h; obtain ⟨-, rfl⟩ := h; exact .nil
+  | cons x xs ih =>
+    intro r b h
+    cases x with
+    | none =>
+      simp only [setAll] at h
+      cases h
+      refine .cons (fun m hm => by cases hm) ?_
+      clear ih
+      induction xs with
+      | nil => exact .nil
+      | cons y ys ih2 => exact .cons (fun m hm _ => ⟨m, hm, rfl⟩) ih2
+    | some m =>
+      simp only [setAll] at h
+      split at h
+      · cases h
+      · rename_i m' hm'
+        split at h
+        · cases h
+        · rename_i b' r' hr'
+          cases h
+          refine .cons ?_ (ih _ _ hr')
+          intro m0 hm0 hrel
+          cases hm0
+          refine ⟨m', rfl, ?_⟩
+          obtain ⟨-, -, -, h2, h3⟩ := setSys_spec hm'
+          cases hab : m.abs with
+          | some a => exact (h2 hrel a hab).2.1
+          | none => exact (h3 hrel hab).2
+
+/-- **C12 (absolute masses preserved)**: when no percentage is inferred (the number of components with a percentage is
+not all-but-one), a component written with an absolute mass only keeps exactly that mass.  (When the one missing
+percentage is inferred, or when the user wrote both, the absolute mass is re-derived as the percentage of the system mass
+and `C12_consistent` bounds it through the consistency of the estimates.) -/
+theorem C12_absolute_preserved (ms : List (Option Mix)) (M : Option Rat) (b : Bool) (r : List (Option Mix))
+    (hni : (tally ms).1 + 1 ≠ ms.length) (h : estimate ms M = .ok (b, r)) : List.Forall₂ KeepAbs ms r := by
+  have hrefl : ∀ l : List (Option Mix), List.Forall₂ KeepAbs l l := by
+    intro l
+    induction l with
+    | nil => exact .nil
+    | cons y ys ih => exact .cons (fun m hm _ => ⟨m, hm, rfl⟩) ih
+  unfold estimate at h
+  split at h
+  · cases h
+  · rename_i nf tf ms1 hstep
+    unfold step1 at hstep
+    simp only [hni, if_false] at hstep
+    cases hstep
+    unfold finish at h
+    split at h
+    · cases h
+    · split at h
+      · cases h
+      · split at h
+        · cases h; exact hrefl _
+        · unfold finishAll at h
+          split at h
+          · cases h
+          · rename_i r' hset
+            cases h
+            exact setAll_keepAbs _ _ _ _ hset
+          · rename_i r' hset
+            split at h
+            · split at h
+              · cases h
+              · cases h; exact setAll_keepAbs _ _ _ _ hset
+            · cases h; exact setAll_keepAbs _ _ _ _ hset
+
+-- non-vacuity: `[30 %, 100, unspecified]` with caller mass 1000: 30 % and the mass 100 are still there
+example : (match estimate [some { rel := some 30 }, some { abs := some 100 }, none] (some 1000) with
+    | .ok (_, [some a, some b, _]) => a.rel == some 30 && b.abs == some 100
+    | _ => false) = true := by decide +kernel
+
 end GBS
